@@ -256,10 +256,8 @@ def check_law(doc_t, law, want_model=False):
         import traceback
         tb = traceback.extract_tb(e.__traceback__)
         inrepo = [f for f in tb if str(core.REPO) in f.filename]
-        if not inrepo:
-            raise
         out["error"] = {"type": type(e).__name__, "msg": str(e)[:200],
-                        "where": f"{inrepo[-1].filename.split('/src/')[-1]}:{inrepo[-1].name}"}
+                        "where": f"{inrepo[-1].filename.split('/src/')[-1]}:{inrepo[-1].name}" if inrepo else "call into the library"}
         return out
     out["mismatch"] = out["mismatch"] or cc.compare(a, b)
     out["range"] = cc.in_unit_interval(a)
@@ -506,7 +504,7 @@ def process(ctx, tasks, st):
 # ------------------------------------------------------------------------------------------
 def mechanism(layer):
     """the part of the compositor outside the model that a layer exercises (first match wins)"""
-    from psd_tools.composite import has_fill
+    has_fill = cc.has_fill
     fx = sorted({type(e).__name__ for e in layer.effects if e.enabled}) if layer.has_effects() else []
     if "Stroke" in fx:
         return "stroke-effect"
@@ -639,7 +637,7 @@ def run(ctx: core.Run):
     rng = ctx.rng
     corpus = json.loads((core.VERIF / "harness" / "corpus" / "C13.json").read_text())
     process(ctx, [law_from_json(j) for j in corpus], st)
-    n_docs = 60 if ctx.quick else 420
+    n_docs = 60 if ctx.quick else 900
     nprng = np.random.RandomState(rng.randrange(2 ** 32))
     docs = []
     for k in range(n_docs):
